@@ -11,6 +11,13 @@ def lst(v):
     return ",".join(hx(x) for x in v) if v else "-"
 
 
+def show_vec(l):
+    """the digest the harness / driver print for a vector: length, rolling hash, first three entries"""
+    from props.common import hash_list
+    l = [x % R for x in l]
+    return "n=%d h=%x head=%s" % (len(l), hash_list(l), lst(l[:3]))
+
+
 def vec(rng, n, kind=0):
     if kind == 1:
         return [0] * n
@@ -169,23 +176,40 @@ def misc_cases(rng, tier):
     for k in range(0, 8 if tier == "quick" else 11):
         n = 1 << k
         w = pow(7, (R - 1) >> k, R) if k else 1
+        def lag(tau):
+            # definition: L_i(tau) = prod_{j != i} (tau - w^j) / (w^i - w^j); closed form used only as a Python shortcut for
+            # tau outside the domain: (tau^n - 1)/n * w^i / (tau - w^i); inside the domain the indicator vector
+            if pow(tau, n, R) == 1:
+                return [1 if pow(w, i, R) == tau % R else 0 for i in range(n)]
+            zn = (pow(tau, n, R) - 1) * inv(n) % R
+            return [zn * pow(w, i, R) % R * inv((tau - pow(w, i, R)) % R) % R for i in range(n)]
         for tau in [0, 1, w, pow(w, rng.below(n), R), rng.fe(), 7]:
-            out.append({"line": "lagrange %d %s" % (n, hx(tau)), "tags": ["lagrange", "tau-in-domain" if pow(tau, n, R) == 1 else "tau-outside"]})
+            out.append({"line": "lagrange %d %s" % (n, hx(tau)), "tags": ["lagrange", "tau-in-domain" if pow(tau, n, R) == 1 else "tau-outside"],
+                        "expect": show_vec(lag(tau))})
             out.append({"line": "vanish %d %s" % (n, hx(tau)), "tags": ["vanishing"], "expect": hx(pow(tau, n, R) - 1)})
         out.append({"line": "domain %d" % n, "tags": ["domain"]})
         out.append({"line": "elements %d" % n, "tags": ["domain-elements"]})
-        for deg in [0, 1, n // 2, max(0, n - 1)]:
+        for deg in sorted(set([0, 1, 2, 3, 5, 6, n // 2, n // 2 + 1, n // 4, max(0, n - 1)])):
             if deg < n:
-                out.append({"line": "vcoset %d %d" % (n, deg), "tags": ["vanishing-over-coset"]})
+                # definition: X^deg - 1 on the coset 7 * <w>; degrees that do and do not divide the domain size
+                out.append({"line": "vcoset %d %d" % (n, deg), "tags": ["vanishing-over-coset", "deg-divides-n" if deg and n % deg == 0 else "deg-not-dividing-n"],
+                            "expect": show_vec([(pow(7 * pow(w, i, R) % R, deg, R) - 1) % R for i in range(n)])})
         ev = vec(rng, n, rng.below(4))
         for pt in [rng.fe(), 7, pow(w, rng.below(n), R) if n > 1 else 1]:
             tags = ["barycentric", "point-in-domain" if pow(pt, n, R) == 1 else "point-outside"]
-            out.append({"line": "bary %d %s %s" % (n, lst(ev), hx(pt)), "tags": tags})
+            c = {"line": "bary %d %s %s" % (n, lst(ev), hx(pt)), "tags": tags}
+            if pow(pt, n, R) != 1 and len(ev) == n:
+                c["expect"] = hx(sum(e * l for e, l in zip(ev, lag(pt))) % R)       # definition: sum_i ev_i * L_i(pt)
+            out.append(c)
             m = rng.below(min(n, 5) + 1)
             idx = sorted(set(rng.below(n) for _ in range(m)))
             roots = [pow(inv(w), i, R) for i in idx]
             vals = [rng.choice([0, rng.fe()]) for _ in idx]
-            out.append({"line": "lpi %d %s %s %s" % (n, lst(roots), lst(vals), hx(pt)), "tags": ["lagrange-and-pi"] + tags[1:]})
+            c = {"line": "lpi %d %s %s %s" % (n, lst(roots), lst(vals), hx(pt)), "tags": ["lagrange-and-pi"] + tags[1:]}
+            if pow(pt, n, R) != 1:
+                lp = lag(pt)
+                c["expect"] = "%s %s" % (hx(lp[0]), hx(sum(v_ * lp[i_] for v_, i_ in zip(vals, idx)) % R))
+            out.append(c)
     out.append({"line": "domain %d" % (1 << 31), "tags": ["domain-large"]})
     out.append({"line": "domain %d" % ((1 << 31) + 1), "tags": ["domain-too-large"], "expect": "err"})
     return out
